@@ -119,6 +119,7 @@ class IndexTie:
                 "name": str(fname),
                 "tree": [r["nid"] for r in scan[str(fname)]],
                 "idc": dict(sorted(fd["idc"].items())),
+                "hrefs": dict(sorted(fd["hrefs"].items())),
                 "xtc": [{"xt": x, "nids": fd["xtc"][x]} for x in sorted(fd["xtc"])],
             })
         self.add(("dump",) + tuple(meta), {"op": "index.dump"}, val)
@@ -137,7 +138,9 @@ class IndexTie:
                         da = {k: v for k, v in a["idc"].items() if b["idc"].get(k, "<absent>") != v}
                         db = {k: v for k, v in b["idc"].items() if a["idc"].get(k, "<absent>") != v}
                         out.disagree(stream, list(meta) + [a["name"]],
-                                     {"idc_only_or_diff": dict(list(da.items())[:5]), "tree_equal": a["tree"] == b["tree"], "xtc_equal": a["xtc"] == b["xtc"]},
+                                     {"idc_only_or_diff": dict(list(da.items())[:5]), "tree_equal": a["tree"] == b["tree"], "xtc_equal": a["xtc"] == b["xtc"],
+                                      "hrefs_equal": a.get("hrefs") == b.get("hrefs"),
+                                      "hrefs_diff": {k: (a.get("hrefs", {}).get(k), b.get("hrefs", {}).get(k)) for k in set(a.get("hrefs", {})) | set(b.get("hrefs", {})) if a.get("hrefs", {}).get(k) != b.get("hrefs", {}).get(k)}},
                                      {"idc_only_or_diff": dict(list(db.items())[:5])})
             elif mv != iv:
                 if meta[0] == "query":
